@@ -138,6 +138,43 @@ def check(run):
         ok = types.get(attr) == klass
         run.ob("C23.R3", "%s:subdb-class:%s" % (sub.fq, attr), ok, run.site(sub), "" if ok else "Subery.%s is a %s, expected %s" % (attr, types.get(attr), klass))
     run.floor("C23.R3", 6)
+    # R6 family separation: the duplicate-preserving (list) writers never go through the de-duplicating (set) writers
+    duror = ix.cls(DU, "Duror")
+    LISTW, SETW = ("addIoVal", "putIoVals", "pinIoVals"), ("addIoSetVal", "putIoSetVals", "pinIoSetVals")
+    setfq = {ix.method(duror, m).fq: m for m in SETW}
+    edges = {}
+    for name, f in duror.methods.items():
+        out = edges.setdefault(f.fq, set())
+        for n in walk_local(f.node):
+            mc = method_call(n) if isinstance(n, ast.Call) else None
+            if mc and mc[0] == "self" and mc[1] in duror.methods:
+                out.add(duror.methods[mc[1]].fq)
+    for caller, callee, line in ix.inlined_sites:
+        edges.setdefault(caller, set()).add(callee)
+    for m in LISTW:
+        f = ix.method(duror, m)
+        seen, todo = set(), [f.fq]
+        while todo:
+            x = todo.pop()
+            if x not in seen:
+                seen.add(x)
+                todo.extend(edges.get(x, ()))
+        hit = sorted(setfq[x] for x in seen if x in setfq)
+        run.ob("C23.R6", "%s:reaches-no-set-writer" % f.fq, not hit, run.site(f),
+               "" if not hit else "the duplicate-preserving writer %s goes through the de-duplicating %s: repeated values are dropped from the durable queue" % (m, hit))
+        params = {a.arg for a in f.node.args.args + f.node.args.kwonlyargs} & {"val", "vals"}
+        dedup = [n for n in walk_local(f.node) if isinstance(n, ast.Call) and dotted(n.func) in ("oset", "set", "frozenset", "dict.fromkeys")
+                 and any(isinstance(x, ast.Name) and x.id in params for a in n.args for x in ast.walk(a))]
+        run.ob("C23.R6", "%s:values-not-made-a-set" % f.fq, not dedup, run.site(f, dedup[0]) if dedup else run.site(f),
+               "" if not dedup else "%s turns its values into a set (%s): duplicates are dropped" % (m, unparse(dedup[0])))
+    for cname2, table in (("IoSuber", dict(zip(("add", "put", "pin"), LISTW))), ("IoSetSuber", dict(zip(("add", "put", "pin"), SETW)))):
+        c2 = ix.cls(DU, cname2)
+        for w, target in sorted(table.items()):
+            f = ix.method(c2, w)
+            got = sorted({method_call(n)[1] for n in walk_local(f.node) if isinstance(n, ast.Call) and method_call(n) and method_call(n)[0] == "self.db"})
+            ok = got == [target]
+            run.ob("C23.R6", "%s:db-writer" % f.fq, ok, run.site(f), "" if ok else "%s.%s must write through db.%s only (found %s)" % (cname2, w, target, got))
+    run.floor("C23.R6", 12)
     # R5 the durable writers keep insertion order: next ordinal = last stored ordinal + 1
     from .c24 import ordinal_obs
     ordinal_obs(run, "C23.R5")
@@ -157,6 +194,8 @@ MUTANTS = [
     Mutant("clear-without-rem", DS, "Dusq.clear", "        if self.rem() == False:\n            raise HierError(f\"Mismatch between cache and durable at \"\n                            f\"key={self._key}\")\n", "", {"C23.R2"}),
     Mutant("reintroduce-unbound-val", DS, "Dusq.remove", "if not isinstance(value, (RegDom, IceRegDom)):", "if not isinstance(val, (RegDom, IceRegDom)):", {"C23.R1"}, canary=True),
     Mutant("remove-wrong-durable-value", DS, "Dusq.remove", "if self.rem(value) == False:", "if self.rem() == False:", {"C23.R2"}),
+    Mutant("pin-list-through-set-writer", DU, "Duror.pinIoVals", "        result = False\n        with self.env.begin(db=sdb, write=True, buffers=True) as txn:\n            for i, val in enumerate(vals):  # starts at zero\n                iokey = self.suffix(key, i, sep=sep)  # ion is at add on amount\n                result = txn.put(iokey, val, dupdata=False, overwrite=True)\n            return result", "        return self.putIoSetVals(sdb=sdb, key=key, vals=vals, sep=sep)", {"C23.R6"}),
+    Mutant("iosuber-put-through-set", DU, "IoSuber.put", "self.db.putIoVals(", "self.db.putIoSetVals(", {"C23.R6"}),
     Mutant("sync-without-clear", DQ, "Durq.sync", "                self._deq.clear()\n", "", {"C23.R4"}),
     Mutant("add-not-durable-guarded", DS, "Dusq.add", "        if self.durable:\n            self._stale = False\n            return self._sdb.add(keys=self._key, val=val)\n        return None", "        self._stale = False\n        return self._sdb.add(keys=self._key, val=val)", {"C23.R2"}),
     Mutant("update-put-not-checked", DS, "Dusq.update", "            if self.put(vals) is False:  # durable unique update but put failed\n                raise HierError(f\"Mismatch between cache and durable at \"\n                                f\"key={self._key}\")\n", "            self.put(vals)\n", {"C23.R2"}),
